@@ -83,7 +83,7 @@ ASSUMPTIONS = [
     "other writes",
     "description texts are non-empty and distinct, described values distinct and inside the type's range",
 ]
-BUDGET = {"quick": 40, "thorough": 400}
+BUDGET = {"quick": 150, "thorough": 400}
 
 NODE = 5
 INT_TYPES = sorted(rc.INTEGERS)
@@ -91,6 +91,7 @@ PAD_DT = {1: rc.UNSIGNED8, 2: rc.UNSIGNED16, 3: rc.UNSIGNED24}
 V_INDEX = 0x2001
 PAD_INDEX = 0x2000
 TAIL_INDEX = 0x2002
+PADBIT_INDEX = 0x2003
 TWO51 = Fraction(1, 1 << 51)
 SPELLINGS = ("int", "list", "list_rev", "slice", "slice0", "slice1", "name")
 
@@ -229,6 +230,7 @@ def od_spec(case):
     spec.append({"kind": "var", "index": PAD_INDEX, "name": "pad", "pdo": True,
                  "dt": PAD_DT.get(case.get("pad", 0), rc.UNSIGNED8)})
     spec.append({"kind": "var", "index": TAIL_INDEX, "name": "tail", "dt": rc.UNSIGNED8, "pdo": True})
+    spec.append({"kind": "var", "index": PADBIT_INDEX, "name": "bitpad", "dt": rc.UNSIGNED8, "pdo": True})
     where = case.get("where", "var")
     if where == "var":
         spec.append(dict(target, kind="var", index=V_INDEX))
@@ -301,13 +303,19 @@ class _Pdo:
             self.map = self.node.rpdo[1]
         index, sub = _addr(case)
         self.pad = case.get("pad", 0)
+        self.padbits = case.get("padbits", 0)     # a sub-byte field in front: the variable starts off a byte boundary
         w = _w(case["dt"])
+        if self.padbits:
+            bitvar = self.map.add_variable(PADBIT_INDEX, 0, self.padbits)
         if self.pad:
             padvar = self.map.add_variable(PAD_INDEX)
         self.var = self.map.add_variable(index, sub)
-        self.tail = 1 if self.pad * 8 + w + 8 <= 64 else 0
+        self.tail = 1 if self.padbits + self.pad * 8 + w + 8 <= 64 else 0
         if self.tail:
             tailvar = self.map.add_variable(TAIL_INDEX)
+        self.bitpat = 0x55 & ((1 << self.padbits) - 1)
+        if self.padbits:
+            bitvar.raw = self.bitpat
         if self.pad:
             padvar.data = b"\xa5" * self.pad
         if self.tail:
@@ -315,11 +323,15 @@ class _Pdo:
 
     def observe(self, nbytes):
         data = bytes(self.map.data)
-        want_len = self.pad + nbytes + self.tail
+        off = self.padbits + self.pad * 8
+        want_len = (off + nbytes * 8 + self.tail * 8 + 7) // 8
         if len(data) != want_len:
             return None, f"PdoMap.data has {len(data)} bytes, the mapping has {want_len}"
-        head, mid, tail = data[:self.pad], data[self.pad:self.pad + nbytes], data[self.pad + nbytes:]
-        if head != b"\xa5" * self.pad or tail != b"\x5a" * self.tail:
+        F = int.from_bytes(data, "little")
+        mid = ((F >> off) & ((1 << (nbytes * 8)) - 1)).to_bytes(nbytes, "little")
+        low, high = F & ((1 << off) - 1), F >> (off + nbytes * 8)
+        want_low = self.bitpat | (int.from_bytes(b"\xa5" * self.pad, "little") << self.padbits)
+        if low != want_low or high != (0x5A if self.tail else 0):
             return mid, f"neighbours in the PDO changed: {data.hex()}"
         return mid, None
 
@@ -392,7 +404,12 @@ def _run_on(cname, case, D):
             held = None
 
         if kind == "raw":
-            ok, r = _call(lambda: setattr(var, "raw", op["v"]))
+            if op.get("via") == "data":
+                # the same value written as bytes through the variable's data attribute
+                raw_bytes = _pat(dt, op["v"]).to_bytes(nbytes, "little")
+                ok, r = _call(lambda: setattr(var, "data", raw_bytes))
+            else:
+                ok, r = _call(lambda: setattr(var, "raw", op["v"]))
             if not ok:
                 bad("raw/raises", f"{tag}: {_exc(r)}")
                 break
@@ -669,6 +686,8 @@ def base_case(dt, ops, init=0, factor=0.1, descs=None, salt=0, **kw):
             "pdo_side": ("tpdo", "rpdo")[(salt // 3) % 2], "hold": False, "decoys": []}
     room = (64 - _w(dt)) // 8
     case["pad"] = min(room, (salt // 2) % 4)
+    if 64 - _w(dt) - 8 * case["pad"] >= 8:
+        case["padbits"] = (0, 1, 0, 3, 7, 0, 5)[salt % 7]
     case.update(kw)
     return case
 
@@ -736,7 +755,7 @@ def signbit_cases():
                 i += 1
                 u0 = (_mix(lo, w, i) & full) | (1 << (w - 1))
                 ops = [{"op": "bget", "sp": sp, "lo": lo, "hi": hi},
-                       {"op": "raw", "v": _val(dt, ~u0 & full)},
+                       dict({"op": "raw", "v": _val(dt, ~u0 & full)}, **({"via": "data"} if i % 2 else {})),
                        {"op": "bget", "sp": sp, "lo": lo, "hi": hi},
                        {"op": "raw", "v": -1},
                        {"op": "bget", "sp": sp, "lo": lo, "hi": hi}]
@@ -900,6 +919,8 @@ def mixed_case(draw, kinds):
         kind = draw(st.sampled_from(kinds))
         if kind == "raw":
             ops.append({"op": "raw", "v": draw(st.one_of(_raw_strategy(dt), st.sampled_from(values)))})
+            if draw(st.integers(0, 2)) == 0:
+                ops[-1]["via"] = "data"
         elif kind == "phys":
             lim = (1 << 53) - 2
             r = draw(_raw_strategy(dt))
@@ -954,7 +975,8 @@ def mixed_case(draw, kinds):
             "ops": ops, "carriers": carriers,
             "where": draw(st.sampled_from(["var", "record", "array"])), "sub": draw(st.integers(1, 254)),
             "pdo_side": draw(st.sampled_from(["tpdo", "rpdo"])), "hold": draw(st.booleans()),
-            "pad": draw(st.integers(0, min(3, room))), "decoys": decoys}
+            "pad": draw(st.integers(0, min(3, room))), "decoys": decoys,
+            "padbits": draw(st.sampled_from([0, 0, 1, 3, 4, 7])) if room >= 4 else 0}
 
 
 def _showcase():
